@@ -388,7 +388,11 @@ def check(case, col):
     if case.get("cli_unpainted"):
         problems.extend(cli_unpainted_problems(case))
     if problems:
-        col.fail("; ".join(problems[:3]), case)
+        note = ""
+        if has_input_tags(case["input"]):
+            tagged = sorted({f"{r[1]} {' '.join(r[5])}" for s in case["input"] for r in s["rows"] if r[0] == "F" and len(r) > 5 and r[5]})
+            note = f" [input contigs carrying tags, which an untagged map gives no meaning to: {', '.join(tagged[:4])}{', ...' if len(tagged) > 4 else ''}]"
+        col.fail("; ".join(problems[:3]) + note, case)
 
 
 def replay(inp):
